@@ -33,13 +33,16 @@ def run(ctx):
     if not ok:
         raise vlib.CheckError("Run/ChaCha.vo does not build: %s" % log[-2000:])
     n = 600 if ctx.quick else 25000
-    for profile in ("debug", "release"):
-        binary, log = vlib.cargo_build(profile=profile, bin_name="h_chacha")
+    # (profile, harness features, label): the portable back end (ppv-lite86 `no_simd`: generic.rs, where
+    # vec128_storage is a union with its own PartialEq) is a different implementation of ==, insert, extract
+    for profile, feats, label in (("debug", (), "host-backend"), ("release", (), "host-backend"),
+                                  ("debug", ("no_simd",), "portable-backend")):
+        binary, log = vlib.cargo_build(features=feats, profile=profile, bin_name="h_chacha")
         if binary is None:
-            raise vlib.CheckError("harness build failed (%s): %s" % (profile, log[-2000:]))
-        s = vlib.correspondence(ctx, binary, "c15", ["--count", n], "host-backend/%s" % profile)
-        ctx.log("%s: %d cases, %d disagree with the model, %d direct failures" %
-                (profile, s.get("evaluations", 0), len(s["failing"]), len(s.get("direct_failures", []))))
+            raise vlib.CheckError("harness build failed (%s %s): %s" % (profile, feats, log[-2000:]))
+        s = vlib.correspondence(ctx, binary, "c15", ["--count", n if not feats else max(200, n // 3)], "%s/%s" % (label, profile))
+        ctx.log("%s/%s: %d cases, %d disagree with the model, %d direct failures" %
+                (label, profile, s.get("evaluations", 0), len(s["failing"]), len(s.get("direct_failures", []))))
         vlib.decide_relative(ctx, s, explain="explain_c15_ops",
                              theorem="C15_get_set_param, C15_set_param_isolated, C15_set_params_eq_new, "
                                      "C15_stream64_eq_iff, C15_stream32_eq_iff",
